@@ -15,7 +15,7 @@ META = {
              "sequence generator; distinct by input hash; non-trivial = a derived description (not one of the three shipped layouts themselves)"),
     "assumptions": ["required parking from the independent frequency model of C16; device edges and neighbours from the Surface-17 layer"],
     "floors": {
-        "quick": {"shipped_layouts": 3, "layers_checked": 7000, "derived_descriptions": 1900, "composite_descriptions": 300, "generated_layouts": 10, "required_parking_queries": 50000},
+        "quick": {"shipped_layouts": 3, "layers_checked": 7000, "derived_descriptions": 1900, "composite_descriptions": 300, "generated_layouts": 1, "generator_calls": 20, "required_parking_queries": 50000},
         "thorough": {"shipped_layouts": 3, "layers_checked": 70000, "derived_descriptions": 19000, "composite_descriptions": 3000},
     },
 }
@@ -25,7 +25,7 @@ def plan(tier: str, seed: int) -> List[Dict[str, Any]]:
     total = 2000 if tier == "quick" else 20000
     shards = common.split_shards("derived", total, 14, seed, 17)
     shards.append({"kind": "shipped", "hashseed": 0, "seed": 0, "n": 0})
-    shards.append({"kind": "generated", "hashseed": 0, "seed": common.seed_base(seed, 171), "n": 12 if tier == "quick" else 60})
+    shards.append({"kind": "generated", "hashseed": 0, "seed": common.seed_base(seed, 171), "n": 30 if tier == "quick" else 120})
     return shards
 
 
@@ -194,6 +194,7 @@ def check_generated(dev: Device, rng: random.Random, acc: Acc):
     case = {"generated": {"edges": [list(dev.model.edges[i]) for i in idx], "subgroup_size": k}}
     acc.case(bp.phash(case), True, sample=case)
     ident = GateSequenceGenerator(included_edge_ids=[lib_edges[i] for i in idx], connectivity=dev.conn).construct_allowed_gate_sequences(subgroup_size=k)
+    acc.count("generator_calls")
     for j in range(min(ident.length, 6)):
         seq = ident.construct_operation_sequence_at(j)
         generic = seq.to_generic_surface_code(dev.conn)
